@@ -33,7 +33,7 @@ Specs == {[k |-> "sel", key |-> k] : k \in {"gene", "CDS", "misc_feature", "sour
          \cup {[k |-> "loc", t |-> Pt(3)], [k |-> "loc", t |-> Rg(2, 6, FALSE, FALSE)], [k |-> "loc", t |-> Cp(Rg(2, 6, FALSE, FALSE))], [k |-> "loc", t |-> Cp(Pt(4))], [k |-> "all"]}
 Locators == ({[x |-> x, m |-> m] : x \in Specs, m \in Mods} \ {[x |-> [k |-> "all"], m |-> None]})
             \cup {[x |-> [k |-> "mod", m |-> m], m |-> None] : m \in {[k |-> "head", p |-> 3], [k |-> "hh", p |-> 2, q |-> 5], [k |-> "ht", p |-> 2, q |-> -2], [k |-> "tail", p |-> -1]}}
-Cmds == { <<"delete", <<>>>>, <<"delete", <<"-e">>>>, <<"insert", <<>>>>, <<"insert", <<"-e">>>>, <<"split", <<>>>>, <<"rotate", <<>>>>,
+Cmds == { <<"delete", <<>>>>, <<"delete", <<"-e">>>>, <<"insert", <<>>>>, <<"insert", <<"-e">>>>, <<"infix", <<>>>>, <<"infix", <<"-e">>>>, <<"split", <<>>>>, <<"rotate", <<>>>>,
           <<"extract", <<>>>>, <<"extract", <<"-v">>>>, <<"delete", <<"-F", "fasta">>>>, <<"extract", <<"-F", "fasta">>>>, <<"split", <<"-F", "fasta">>>> }
 
 All == SetToSeq({<<ti, tp, lc, cm>> : ti \in 1..Len(Tables), tp \in 1..2, lc \in Locators, cm \in Cmds})
